@@ -239,18 +239,20 @@ def norm_6(ctx, rep):
             n_pops += 1
             why = None
             # (a) guarded by a positive test on the type of the top node
+            from ..facts import facts_at
+            for text, positive in sorted(facts_at(n, f.node)):
+                if positive and ' | ' not in text and ' == IndentationTypes.' in text \
+                        and any(text.startswith(a + '.type == ') for a in aliases):
+                    why = 'guarded by %s' % text
+                    break
+            # (c) one half of a push/pop pair under one recognition guard (either orientation of the test)
             child = n
             p = getattr(n, '_parent', None)
             while p is not None and p is not f.node and why is None:
-                if isinstance(p, ast.If) and child in p.body:
-                    for t in ast.walk(p.test):
-                        if isinstance(t, ast.Compare) and len(t.ops) == 1 and isinstance(t.ops[0], ast.Eq) \
-                                and isinstance(t.left, ast.Attribute) and t.left.attr == 'type' and norm(t.left.value) in aliases \
-                                and 'IndentationTypes.' in norm(t.comparators[0]) and not _under_or(t, p.test):
-                            why = 'guarded by %s' % norm(t)
-                    # (c) else-half of a push/pop pair under one recognition guard
-                if isinstance(p, ast.If) and child in p.orelse and any(_is_push(s) for s in p.body):
-                    why = 'else-half of the push/pop pair selected by `%s`' % norm(p.test)
+                if isinstance(p, ast.If):
+                    other = p.orelse if child in p.body else p.body if child in p.orelse else []
+                    if any(_is_push(x) for s in other for x in ast.walk(s)):
+                        why = 'pop half of the push/pop pair selected by `%s`' % norm(p.test)
                 child = p
                 p = getattr(p, '_parent', None)
             # (b) exit half of a context manager: after the yield, mirrored by a push before the yield under the same test
@@ -293,11 +295,14 @@ def _under_or(t, test):
 
 
 def _guard_text(n, stop):
+    """Innermost enclosing branch condition, printed canonically (independent of if/else orientation)."""
+    from ..facts import atoms
     child = n
     p = getattr(n, '_parent', None)
     while p is not None and p is not stop:
-        if isinstance(p, ast.If):
-            return ('if ' if child in p.body else 'else of if ') + norm(p.test, 120)
+        if isinstance(p, ast.If) and (child in p.body or child in p.orelse):
+            a = sorted('%s%s' % ('' if pos else 'not ', t) for t, pos in atoms(p.test, child in p.body))
+            return 'when ' + ' and '.join(a)[:140]
         child = p
         p = getattr(p, '_parent', None)
     return 'unconditional'
